@@ -77,7 +77,12 @@ type c19Sess struct {
 	id     uint32
 	n      int
 	dead   bool
+	k      *lib.Case // hang account of the session (lib/budget.go): class c19/<os|rs>
 }
+
+// c19ProbeClass is the hang class of the STAT that follows an extended request ("the session continues"): a class of
+// its own, so that a server which does not answer STAT stops the probes, not the extended requests.
+func c19ProbeClass(kind string) string { return "c19-stat-probe/" + kind }
 
 func c19Has(l []string, x string) bool {
 	for _, y := range l {
@@ -96,7 +101,7 @@ func (se *c19Sess) kindKey() string {
 }
 
 func c19Open(kind string, opts, ifaces []string, scratch string) (*c19Sess, error) {
-	se := &c19Sess{kind: kind, opts: opts, ifaces: ifaces, id: 100}
+	se := &c19Sess{kind: kind, opts: opts, ifaces: ifaces, id: 100, k: lib.NewCase("c19/" + kind)}
 	if kind == "os" {
 		root, err := os.MkdirTemp(scratch, "os")
 		if err != nil {
@@ -160,7 +165,7 @@ func c19Open(kind string, opts, ifaces []string, scratch string) (*c19Sess, erro
 
 func (se *c19Sess) close() {
 	se.s.CloseInput()
-	se.s.Wait(5 * time.Second)
+	hCleanupSrv(se.s, "c19/server-exit", 5*time.Second)
 	if se.onDisk != "" {
 		os.RemoveAll(se.onDisk)
 	}
@@ -168,10 +173,10 @@ func (se *c19Sess) close() {
 
 // handshake sends INIT with the given body and parses the VERSION reply with the independent codec.
 func (se *c19Sess) handshake(initBody []byte) (version uint32, exts [][2]string, err error) {
-	if err = se.s.Send(wire.Frame(wire.Init, initBody)); err != nil {
+	if err = hSend(se.s, se.k, wire.Frame(wire.Init, initBody)); err != nil {
 		return 0, nil, err
 	}
-	p, err := se.s.Recv(20 * time.Second)
+	p, err := hRecv(se.s, se.k, 20*time.Second)
 	if err != nil {
 		se.dead = true
 		return 0, nil, err
@@ -193,8 +198,12 @@ func (se *c19Sess) handshake(initBody []byte) (version uint32, exts [][2]string,
 }
 
 func (se *c19Sess) call(typ byte, body []byte) (wire.Pkt, error) {
+	return se.callK(se.k, typ, body)
+}
+
+func (se *c19Sess) callK(k *lib.Case, typ byte, body []byte) (wire.Pkt, error) {
 	se.id++
-	p, err := se.s.Call(wire.Req(typ, se.id, body))
+	p, err := hCall(se.s, k, wire.Req(typ, se.id, body))
 	if err != nil {
 		se.dead = true
 		return p, err
@@ -334,7 +343,7 @@ func (se *c19Sess) alive() (string, bool) {
 	if se.kind == "os" {
 		p = se.root
 	}
-	rp, err := se.call(wire.Stat, wire.B{}.Str(p))
+	rp, err := se.callK(lib.NewCase(c19ProbeClass(se.kind)), wire.Stat, wire.B{}.Str(p))
 	if err != nil || rp.Typ != wire.Attrs {
 		return c19Show(rp, err), false
 	}
@@ -566,7 +575,7 @@ func (se *c19Sess) do(q c19Q, cfg, supported []string) (class string, out []c19V
 	}
 	before := se.listing()
 	se.rec.take()
-	p, err := se.s.Call(frame)
+	p, err := hCall(se.s, se.k, frame)
 	calls := se.rec.take()
 	if err != nil {
 		se.dead = true
@@ -582,7 +591,7 @@ func (se *c19Sess) do(q c19Q, cfg, supported []string) (class string, out []c19V
 		}
 		obs = []c19Ob{{c19ObsKey{se.modelSrv(), se.ro, nh, class != "malformed"}, se.observe(class, name, p, err, len(out) == 0, calls)}}
 	}
-	if class == "unknown" && !se.dead {
+	if class == "unknown" && !se.dead && !lib.Stop(c19ProbeClass(se.kind)) {
 		if act, ok := se.alive(); !ok {
 			out = append(out, c19V{Key: "server/session-ended-after-extended/" + se.kindKey(), What: "the session does not continue after an extended request with an unserved name", Expected: "ATTRS for STAT", Actual: act})
 		}
@@ -623,7 +632,7 @@ func (se *c19Sess) pipelined(qs []c19Q, cfg, supported []string) (out []c19V, ob
 	}
 	stream = append(stream, wire.Req(wire.Stat, statID, wire.B{}.Str(sp))...)
 	se.rec.take()
-	if err := se.s.Send(stream); err != nil {
+	if err := hSend(se.s, se.k, stream); err != nil {
 		se.dead = true
 		return []c19V{{Key: "server/session-ended-after-extended/" + se.kindKey(), What: "the server stopped reading a pipelined batch of extended requests", Actual: err.Error()}}, nil
 	}
@@ -634,7 +643,7 @@ func (se *c19Sess) pipelined(qs []c19Q, cfg, supported []string) (out []c19V, ob
 	}
 	var gots []got
 	for _, e := range exps {
-		p, err := se.s.Recv(20 * time.Second)
+		p, err := hRecv(se.s, se.k, 20*time.Second)
 		if err != nil {
 			se.dead = true
 			out = append(out, c19V{Key: "server/session-ended-after-extended/" + se.kindKey(), What: "a pipelined extended request got no reply", Actual: c19Show(p, err)})
@@ -658,7 +667,7 @@ func (se *c19Sess) pipelined(qs []c19Q, cfg, supported []string) (out []c19V, ob
 		}
 		obs = append(obs, c19Ob{c19ObsKey{se.modelSrv(), se.ro, g.e.q.NameHex, true}, se.observe(g.e.class, g.e.name, g.p, nil, g.clean, cl)})
 	}
-	p, err := se.s.Recv(20 * time.Second)
+	p, err := hRecv(se.s, lib.NewCase(c19ProbeClass(se.kind)), 20*time.Second)
 	if err != nil || p.ID() != statID || p.Typ != wire.Attrs {
 		if err != nil {
 			se.dead = true
@@ -989,7 +998,10 @@ func c19Server(c *lib.Ctx, scratch string) {
 					qs = append(qs, q)
 				}
 				in.Mode = "serial"
-				for _, q := range qs {
+				for qi, q := range qs {
+					if c.StopN("c19/"+v.kind, len(qs)-qi) {
+						break
+					}
 					if se.dead {
 						se.close()
 						if se, _, ok = c19Handshake(r, v, cfg, data, initBody, scratch, true); !ok {
@@ -1013,7 +1025,7 @@ func c19Server(c *lib.Ctx, scratch string) {
 					return
 				}
 				// a pipelined batch on the same session
-				if !se.dead {
+				if !se.dead && !c.Stop("c19/"+v.kind) && !c.Stop(c19ProbeClass(v.kind)) { // (the batch ends with the STAT probe)
 					var batch []c19Q
 					for i := 0; i < 8; i++ {
 						var n string
@@ -1048,7 +1060,7 @@ func c19Server(c *lib.Ctx, scratch string) {
 					}
 					c19Report(r, one, vs)
 				}
-				if !se.dead {
+				if !se.dead && !c.Stop(c19ProbeClass(v.kind)) {
 					if act, ok := se.alive(); !ok {
 						one := in
 						one.Mode = "serial"
@@ -1059,6 +1071,9 @@ func c19Server(c *lib.Ctx, scratch string) {
 				// requests that do not decode: one session each
 				for mi, q := range malformed {
 					if !thorough && (mi+ci+vi)%4 != 0 {
+						continue
+					}
+					if c.Stop("c19/" + v.kind) {
 						continue
 					}
 					se, in, ok := c19Handshake(r, v, cfg, data, initBody, scratch, false)
